@@ -57,6 +57,11 @@ class Ctx:
         self.analysis_errors = []
 
     def ob(self, func, construct, ok, loc, msg, witness=None, rule=None):
+        if ok is None:
+            # undecided: the construct this obligation talks about is not there in a shape the rule understands.
+            # Neither a violation (nothing contradicts the rule) nor a pass: the run ends as ANALYSIS-ERROR (exit 2).
+            self.analysis_errors.append("%s: undecided %s [%s] at %s: %s" % (rule or self.current_rule, func, construct, loc, msg))
+            return None
         o = Ob(rule or self.current_rule, func, construct, ok, loc, msg, witness)
         self.obs.append(o)
         return o
